@@ -506,7 +506,7 @@ FN('can_redirect_auth_header', props=['C13'], ret='r',
 
 RAW('''
 // N9: `close_reason.first().map(|s| s.explain())` (slice::first through Deref, Option::map with a method closure)
-pub fn first_reason_text(reasons: &ArrayVec<CloseReason, 5>) -> (r: Option<&'static str>)
+pub fn first_reason_text<const N: usize>(reasons: &ArrayVec<CloseReason, N>) -> (r: Option<&'static str>)
     ensures if reasons.view().len() > 0 { r is Some && str_bytes(r->Some_0) == explain_bytes(reasons.view()[0]) } else { r is None }
 {
     let s: &[CloseReason] = &*reasons;
